@@ -125,6 +125,16 @@ CHECKS = {
             "Round trips at noise variance 0/None only; tolerance 256 eps n kappa(H) ||x||.",
             "icontract postconditions + round-trip and defining-equation oracles on condition-controlled channels",
             "DESIGN.md §5 C04"),
+    "C14": ("exploration",
+            "Histories of generate(n)/skip(n) requests (n up to 1e5, cumulative positions forced at 1e3..1e10) are run on generators "
+            "over six sampling intervals, four Doppler classes (incl. 0), 1-20 rays and four shapes.  The monitor keeps an integer "
+            "sample counter, records the phases the generator drew from the RandomState proxy it was given, and compares sampled "
+            "positions of every request with the closed-form Jakes sum evaluated in longdouble; a black-box twin (same seed, one skip + "
+            "one request) decides chunking independence without internals; shape/count, magnitude bound and zero-Doppler constancy are "
+            "checked on every request.",
+            "Tolerance sqrt(L)(2 pi Fd t eps 40 + 1e-12): met by any implementation forming k*Ts in double, violated by a 1e-10 relative drift; if the phases cannot be identified from sample 0 the absolute model degrades to 'not attached' and the twin decides.",
+            "reference model (integer position + closed-form sum) in lock-step with request histories, plus black-box twin",
+            "DESIGN.md §5 C14"),
 }
 
 PENDING_REASON = "check not built yet in this session (design in DESIGN.md §5); will be claimed once its monitors run clean on the unchanged tree"
